@@ -231,6 +231,21 @@ JOBS['C14'] = Job('C14', mc='MC_Fields', tag='FIELD', drive='fields-run', trace=
                                'builder payload limits are checked by the C10 check'])
 
 
+def build_tag_props(tag):
+    return ['C10']
+
+
+JOBS['C10'] = Job('C10', mc='MC_Builder', tag='BUILD', drive='build-run', trace='Trace_Builder',
+                  invariants=['TypeState', 'SizeFits', 'Emit'], consts_quick={'Wide': 'FALSE'}, consts_thorough={'Wide': 'TRUE'},
+                  tag_props=build_tag_props,
+                  describe='one case = one complete path through the builder typestate machine (link x VLAN x net incl. IpHeaders with options/auth/extension sets x '
+                           'transport incl. every TCP flag setter and option form x payload lengths incl. the exact limits of the path +-1), written through write, '
+                           'write_to_vec and write_to_slice; the bytes are decoded by the reference decoder and every checksum is verified by the RFC 1071 machine',
+                  assumptions=['64 kB packets: sizes, verdicts and length fields are checked, byte-exact re-decoding and checksum verification only below 2 kB',
+                               'header field values are fixed constants of the harness (addresses, ports, ids)',
+                               'raw IPv6 payloads announced as protocol 0 are only checked for size (a decoder reads them as hop-by-hop header)'])
+
+
 def run(pid, tier, seed, replay=None):
     if pid == 'C15':
         return run_c15(pid, tier, seed, replay)
